@@ -117,24 +117,42 @@ fn check_file(rep: &mut Rep, path: &std::path::Path, want: &[(i64, i64)], class:
             None
         }
         Ok(Ok(f)) => {
-            let fwd: Vec<LeapSecond> = f.clone().collect();
-            let mut rev: Vec<LeapSecond> = f.clone().rev().collect();
+            // (every call into the provider is guarded: a panic while iterating is an answer that differs, not a harness failure)
+            let (fwd, mut rev, idx) = match guard(|| {
+                let fwd: Vec<LeapSecond> = f.clone().collect();
+                let rev: Vec<LeapSecond> = f.clone().rev().collect();
+                let idx: Vec<LeapSecond> = (0..fwd.len()).map(|i| f[i]).collect();
+                (fwd, rev, idx)
+            }) {
+                Ok(x) => x,
+                Err(p) => {
+                    rep.fail(&format!("file/panic/{}", p.class()), None, || format!("iterating the provider of {} panicked: {} at {}", path.display(), p.msg, p.loc));
+                    return None;
+                }
+            };
             rev.reverse();
-            let idx: Vec<LeapSecond> = (0..fwd.len()).map(|i| f[i]).collect();
             if fwd != rev || fwd != idx {
                 rep.fail("file/iteration-orders-disagree", None, || format!("{}", path.display()));
             }
             for k in [0usize, 1, fwd.len() / 2, fwd.len()] {
-                let mk_it = || {
-                    let mut it = f.clone();
-                    for _ in 0..k {
-                        let _ = it.next();
-                    }
-                    it
-                };
                 let left = &fwd[k.min(fwd.len())..];
-                if mk_it().last() != left.last().copied() || mk_it().count() != left.len() || mk_it().nth(1) != left.get(1).copied() {
-                    rep.fail("file/adaptor-after-partial-iteration", None, || format!("{} after {k} next() calls", path.display()));
+                let r = guard(|| {
+                    let mk_it = || {
+                        let mut it = f.clone();
+                        for _ in 0..k {
+                            let _ = it.next();
+                        }
+                        it
+                    };
+                    (mk_it().last(), mk_it().count(), mk_it().nth(1))
+                });
+                match r {
+                    Err(p) => rep.fail(&format!("file/panic/{}", p.class()), None, || format!("adaptors of the provider of {} after {k} next() calls panicked: {}", path.display(), p.msg)),
+                    Ok((last, count, nth1)) => {
+                        if last != left.last().copied() || count != left.len() || nth1 != left.get(1).copied() {
+                            rep.fail("file/adaptor-after-partial-iteration", None, || format!("{} after {k} next() calls", path.display()));
+                        }
+                    }
                 }
             }
             if fwd.len() != want.len() || !fwd.iter().zip(want.iter()).all(|(a, b)| ls_eq(a, b.0, b.1, true)) {
